@@ -169,6 +169,14 @@ CHECKS = {
         "Cells where no leaf is drawn are not judged. Overlay's bottom widget is an inert backdrop by documented design (an event reaching no leaf there is counted, not judged). The size argument handed to a leaf is counted, not judged. Containers above Scrollable/ScrollBar are skipped for c1 (no get_cursor_coords).",
         "DESIGN.md §3 C09, §8",
     ),
+    "C01": (
+        "exploration",
+        "runtime contract monitor on every widget of generated trees: the module-level render-size hook (validate_size) that both render wrappers call is replaced by a monitor that sees (widget, size, canvas) for every cache-missing render of every widget class, plus a root driver that evaluates rows()/pack() first and then renders each reported sizing mode at many sizes and both focus values",
+        "Typed grammar over all 33 bundled widget classes (vmon/gen/trees.py: only child/option combinations the classes' sizing() rules document, depth <= 5, three text alphabets, str and bytes) x sizes {1,2,3,5,8,13,40}^2 (box), 1..13 and 40 (flow), () (fixed) x focus x utf-8 / euc-jp / ascii; "
+        "clauses: render succeeds; box -> exact cols x rows; flow -> cols and rows() rows; fixed -> pack(); every content row is cols() columns wide (decoded per encoding); len(content) == rows(); cursor inside. A finding is blamed on the innermost widget that violates while handed an in-domain size, and shrunk.",
+        "Trees or (tree, size) pairs for which urwid emits a WidgetWarning are skipped (the library's own misuse diagnostics define the domain); sizing() is taken at its word; every (size, focus) evaluation builds a fresh tree with the cache cleared (state left by earlier renders is C06's subject). Signatures are C01|<blamed class>|<clause or raise site>.",
+        "DESIGN.md §3 C01, §8",
+    ),
 }
 
 NA_REASON = "check not built yet in this round (see DESIGN.md §6 build order); no claim is made"
